@@ -8,7 +8,7 @@ from . import pcheck
 from . import surface as S
 from .searchc import mk_case, seq_of, bag_of, reference, show_ref
 
-CONE = ["Proofs/ElabProofs.vo", "Proofs/EngineProofs.vo", "Gen/RelDefs.vo"]
+CONE = ["Proofs/ElabProofs.vo", "Proofs/EngineProofs.vo", "Gen/RelDefs.vo", "Proofs/ScopeStream.vo"]
 ATOMS = [1, 2, 3, "#t", ["s", 1], ["c", 97], "nil"]
 
 
